@@ -118,6 +118,8 @@ def _endpoint(draw, n):
         ep["deadend_end"] = draw(st.booleans())
     if draw(st.booleans()):
         ep["endpoints_not_equal"] = draw(st.booleans())
+    if draw(st.integers(0, 5)) == 0:
+        ep["except_when_invalid"] = True  # the remaining option of the endpoint-drawing step, spelled out with its default value
     return ep
 
 
